@@ -88,7 +88,7 @@ _TIMEOUTS = {'n': 0}
 def impl(line):
     """after three watchdog time-outs (a constructor loop that no longer terminates) every further call gets
     50 ms instead of the framework's 2-10 s, so a broken loop is reported in seconds, not hours"""
-    if _TIMEOUTS['n'] >= 3:
+    if _TIMEOUTS['n'] >= 3 and not line.startswith('np.'):
         with common.watchdog(0.05):
             return _impl(line)
     try:
@@ -131,8 +131,203 @@ def _impl(line):
     if op == 'xyzrt':
         c = _coord(a[0:2])
         c2 = Coordinate._from_xyz(c.xyz)
-        return f'{rat(c2.longitude)} {rat(c2.latitude)}'
+        return f'{rat(c2.longitude)} {rat(c2.latitude)}' + inv_suffix(c2)
+    if op == 'fromxyz':
+        c2 = Coordinate._from_xyz([vec_value(a[0], t) for t in a[1:4]])
+        return f'{rat(c2.longitude)} {rat(c2.latitude)}' + inv_suffix(c2)
+    if op == 'out':
+        return impl_out(a)
     raise ValueError('unknown op ' + op)
+
+
+# ---- normal-form invariants of a Coordinate that came into existence by any route --------------------
+
+def inv_fail(c):
+    """None, or which normal-form invariant the coordinate object violates: stored range, being a fixed point of
+    the constructor, ==/hash agreement with the constructor-built coordinate of the same fields, and a cached
+    unit vector that is the one of the stored lon/lat"""
+    from geostructures.coordinates import Coordinate
+    lon, lat = c.longitude, c.latitude
+    if not (isinstance(lon, (int, float)) and isinstance(lat, (int, float))) or lon != lon or lat != lat:
+        return 'value'
+    if not (-180 <= lon < 180 and -90 <= lat <= 90):
+        return 'range'
+    c2 = Coordinate(lon, lat, c.z, c.m)
+    if c2.longitude != lon or c2.latitude != lat:
+        return 'idem'
+    if not (c == c2 and c2 == c and not (c != c2) and hash(c) == hash(c2) and len({c, c2}) == 1):
+        return 'eqhash'
+    if 'xyz' in getattr(c, '__dict__', {}):
+        if any(abs(p - q) > 1e-12 for p, q in zip(c.__dict__['xyz'], c2.xyz)):
+            return 'stale-xyz'
+    return None
+
+
+def inv_suffix(c):
+    f = inv_fail(c)
+    return f' !{f}' if f else ''
+
+
+def vec_value(kind, tok):
+    """component of a vector handed to _from_xyz: Python float, int, numpy float64 or numpy longdouble (the
+    circumcentre code passes longdoubles)"""
+    x = unfbits(tok)
+    if kind == 'i' and float(x).is_integer():
+        return int(x)
+    if kind == 'n':
+        import numpy as np
+        return np.float64(x)
+    if kind == 'l':
+        import numpy as np
+        return np.longdouble(x)
+    return x
+
+
+def harvest(obj, out, seen, depth=0):
+    """every Coordinate reachable from a result (containers, shape objects and their caches)"""
+    from geostructures.coordinates import Coordinate
+    if id(obj) in seen or depth > 9:
+        return
+    seen.add(id(obj))
+    if isinstance(obj, Coordinate):
+        out.append(obj)
+        return
+    if isinstance(obj, (str, bytes, int, float, bool, type(None))):
+        return
+    if isinstance(obj, dict):
+        for v in obj.values():
+            harvest(v, out, seen, depth + 1)
+        return
+    if isinstance(obj, (list, tuple, set, frozenset)):
+        for v in obj:
+            harvest(v, out, seen, depth + 1)
+        return
+    if type(obj).__module__.startswith('geostructures') and hasattr(obj, '__dict__'):
+        for v in list(vars(obj).values()):
+            harvest(v, out, seen, depth + 1)
+
+
+def _mk_shape(kind, lon, lat, size):
+    from geostructures import (Coordinate, GeoBox, GeoCircle, GeoEllipse, GeoLineString, GeoPoint, GeoPolygon,
+                               GeoRing, MultiGeoLineString, MultiGeoPoint, MultiGeoPolygon)
+    from geostructures.collections import FeatureCollection
+    C = Coordinate
+    d = size
+    if kind == 'poly':
+        return GeoPolygon([C(lon - d, lat - d), C(lon + d, lat - d), C(lon + d, lat + d), C(lon - d, lat + d)])
+    if kind == 'polyhole':
+        h = GeoPolygon([C(lon - d / 2, lat - d / 2), C(lon + d / 2, lat - d / 2), C(lon, lat + d / 2)])
+        return GeoPolygon([C(lon - d, lat - d), C(lon + d, lat - d), C(lon + d, lat + d), C(lon - d, lat + d)], holes=[h])
+    if kind == 'tri':
+        return GeoPolygon([C(lon - d, lat), C(lon + d, lat), C(lon, lat + d)])
+    if kind == 'cap':                      # a ring of vertices around the nearer pole
+        la = (90 - d) if lat >= 0 else -(90 - d)
+        return GeoPolygon([C(lon + k * 90, la) for k in range(4)])
+    if kind == 'box':
+        return GeoBox(C(lon - d, lat + d), C(lon + d, lat - d))
+    if kind == 'circle':
+        return GeoCircle(C(lon, lat), d * 111000)
+    if kind == 'ellipse':
+        return GeoEllipse(C(lon, lat), d * 111000, d * 55000, 30)
+    if kind == 'ring':
+        return GeoRing(C(lon, lat), d * 50000, d * 111000)
+    if kind == 'wedge':
+        return GeoRing(C(lon, lat), d * 50000, d * 111000, angle_min=200, angle_max=340)
+    if kind == 'line2':
+        return GeoLineString([C(lon - d, lat), C(lon + d, lat)])
+    if kind == 'line3':
+        return GeoLineString([C(lon - d, lat - d / 3), C(lon + d, lat), C(lon + d / 2, lat + d)])
+    if kind == 'point':
+        return GeoPoint(C(lon, lat))
+    if kind == 'mpoint':
+        return MultiGeoPoint([GeoPoint(C(lon - d, lat)), GeoPoint(C(lon + d, lat)), GeoPoint(C(lon, lat + d))])
+    if kind == 'mline':
+        return MultiGeoLineString([_mk_shape('line2', lon, lat, d), _mk_shape('line3', lon, lat, d)])
+    if kind == 'mpoly':
+        return MultiGeoPolygon([_mk_shape('tri', lon - d, lat, d / 2), _mk_shape('poly', lon + d, lat, d / 2)])
+    if kind == 'coll':
+        return FeatureCollection([_mk_shape('tri', lon - d, lat, d / 2), _mk_shape('point', lon + d, lat, d),
+                                  _mk_shape('line2', lon, lat, d)])
+    raise ValueError('shape kind ' + kind)
+
+
+OBSERVERS = ('centroid', 'bounding_coords', 'bounding_edges', 'edges', 'linear_rings', 'segments',
+             'circumscribing_circle', 'circumscribing_rectangle', 'convex_hull', 'to_polygon', 'copy', 'split',
+             'wkt', 'geojson', 'shapely', 'bounding_coords_k')
+
+
+def _observe(shape, name):
+    if name == 'wkt':
+        return type(shape).from_wkt(shape.to_wkt())
+    if name == 'geojson':
+        return type(shape).from_geojson(shape.to_geojson())
+    if name == 'shapely':
+        return type(shape).from_shapely(shape.to_shapely())
+    if name == 'bounding_coords_k':
+        return shape.bounding_coords(k=7)
+    v = getattr(shape, name)
+    return v() if callable(v) else v
+
+
+def impl_out(a):
+    """np.out <scenario> <args>: call public functions that RETURN coordinates (or objects holding coordinates) on
+    inputs on / straddling the antimeridian and the poles, and test every coordinate object that comes back
+    against the normal-form invariants.  Answer `ok <number of coordinates examined>` or the first violation."""
+    from geostructures.coordinates import Coordinate
+    from geostructures import calc
+    sc = a[0]
+    v = [float(Fraction(t)) for t in a[1:] if t[0] in '-0123456789']
+    results, errors = [], 0
+    if sc == 'dest':
+        start = Coordinate(v[0], v[1], z=0.0)
+        results.append(('deg', calc.inverse_haversine_degrees(start, v[2], v[3])))
+        results.append(('rad', calc.inverse_haversine_radians(start, math.radians(v[2]), v[3])))
+    elif sc == 'rot':
+        pts = [Coordinate(v[0], v[1]), Coordinate(v[0] + 0.5, v[1] - 0.25, 5.0)]
+        results.append(('rot', calc.rotate_coordinates(pts, Coordinate(v[2], v[3]), v[4])))
+    elif sc == 'parse':
+        from geostructures import GeoPoint
+        lon, lat = v[0], v[1]
+        results.append(('wkt', Coordinate.from_wkt(f'{lon!r} {lat!r}')))
+        results.append(('wktz', Coordinate.from_wkt(f'{lon!r} {lat!r} 0.0')))
+        results.append(('pt', GeoPoint.from_wkt(f'POINT ({lon!r} {lat!r})')))
+        results.append(('gj', GeoPoint.from_geojson({'type': 'Feature', 'properties': {},
+                                                     'geometry': {'type': 'Point', 'coordinates': [lon, lat]}})))
+        c = Coordinate(lon, lat)
+        results.append(('dms', Coordinate.from_dms(*c.to_dms())))
+        results.append(('qdms', Coordinate.from_qdms(*c.to_qdms())))
+        ad, sd = abs(lon), abs(lat)
+        if ad <= 180 and sd <= 90:
+            results.append(('dms2', Coordinate.from_dms((int(ad), int(ad % 1 * 60), 0.0, 'E' if lon >= 0 else 'W'),
+                                                        (int(sd), int(sd % 1 * 60), 0.0, 'N' if lat >= 0 else 'S'))))
+        results.append(('mgrs', Coordinate.from_mgrs(c.to_mgrs())))
+        from pyproj import Transformer
+        for crs in ('EPSG:3857', 'EPSG:4326'):
+            if crs == 'EPSG:3857' and abs(c.latitude) > 85:
+                continue
+            x, y = Transformer.from_crs('EPSG:4326', crs).transform(c.latitude, c.longitude if lon != 180 else 180.0)
+            results.append((crs, Coordinate.from_projection(y, x, crs)))
+    else:
+        shape = _mk_shape(sc, v[0], v[1], v[2])
+        for name in OBSERVERS:
+            try:
+                if name in ('wkt', 'geojson', 'shapely', 'bounding_coords_k') or hasattr(shape, name):
+                    results.append((name, _observe(shape, name)))
+            except common.ImplTimeout:
+                raise
+            except Exception:                                  # noqa: what an observer cannot do is not C08's business
+                errors += 1
+        results.append(('self', shape))                        # incl. whatever the calls above cached on it
+    n = 0
+    for name, r in results:
+        found = []
+        harvest(r, found, set())
+        for c in found:
+            n += 1
+            f = inv_fail(c)
+            if f:
+                return f'{name}: {c!r} !{f}'
+    return f'ok {n}'
 
 
 # ---- the property, stated independently of the model (closed form, exact fractions) --------------------
@@ -193,6 +388,13 @@ def spec(line):
         if op == 'xyzrt':
             lo, la = canon(tok_exact(a[0]), tok_exact(a[1]))
             return f'{rat(lo)} {rat(la)}'
+        if op == 'fromxyz':
+            x, y, z = (unfbits(t) for t in a[1:4])
+            if abs(z) > 1:
+                return None                     # not a unit vector: asin is undefined, nothing is claimed
+            return 'vec ' + ' '.join(a[1:4])
+        if op == 'out':
+            return 'ok'
     except ValueError:
         return 'ERR:Value'
     return None
@@ -250,11 +452,28 @@ def _xyz_of(lo, la):
     return (math.cos(rl) * math.cos(ro), math.cos(rl) * math.sin(ro), math.sin(rl))
 
 
+def fromxyz_spec_compare(a, s):
+    """the coordinate made from a vector: normal form (no `!` suffix), and – for a unit vector – the point the
+    vector denotes (latitude always; longitude only away from the poles, where it is determined)"""
+    if a.startswith('ERR') or a in ('TIMEOUT', 'TYPE!') or '!' in a:
+        return False
+    x, y, z = (unfbits(t) for t in s.split()[1:4])
+    lo, la = _pair(a)
+    if not (-180 <= lo < 180 and -90 <= la <= 90):
+        return False
+    n = math.sqrt(x * x + y * y + z * z)
+    if abs(math.degrees(math.asin(max(-1.0, min(1.0, z)))) - float(la)) > 1e-9:
+        return False
+    if abs(n - 1) > 1e-9 or math.hypot(x, y) < 1e-6:
+        return True
+    return math.dist(_xyz_of(lo, la), (x / n, y / n, z / n)) <= 1e-9
+
+
 def xyzrt_compare(chord_tol, deg_tol):
     def cmp(a, b):
         if a == b:
             return True
-        if a.startswith('ERR') or b.startswith('ERR') or a in ('TIMEOUT', 'TYPE!'):
+        if a.startswith('ERR') or b.startswith('ERR') or a in ('TIMEOUT', 'TYPE!') or '!' in a or '!' in b:
             return False
         (lo, la), (blo, bla) = _pair(a), _pair(b)
         if not (-180 <= lo < 180 and -90 <= la <= 90):
@@ -473,6 +692,113 @@ def check(run):
     run.run_cases('xyz-roundtrip', rt, impl, spec, compare=xyzrt_compare(1e-12, 1e-9),
                   spec_compare=xyzrt_compare(1e-7, 1e-9), tag=lambda ln, a: ['xyzrt'])
 
+    # ---- coordinates that do not come from the plain constructor: _from_xyz on arbitrary vectors ------------
+    def unit(v):
+        n = math.sqrt(sum(t * t for t in v))
+        return tuple(t / n for t in v) if n else tuple(v)
+
+    def sph(lo, la):
+        rl, ro = math.radians(la), math.radians(lo)
+        return (math.cos(rl) * math.cos(ro), math.cos(rl) * math.sin(ro), math.sin(rl))
+    vecs = []
+    grid = [-1.0, -0.5, -0.0, 0.0, 0.5, 1.0]
+    for x in grid:                                   # lattice directions incl. axes, signed zeros, the zero vector
+        for y in grid:
+            for z in grid:
+                vecs.append(unit((x, y, z)))
+    for y in (5e-324, -5e-324, 1e-300, -1e-300, 1e-17, -1e-17, 1e-16, -1e-16, 2.5e-16, -2.5e-16, 1e-15, -1e-15, 1e-9, -1e-9):
+        for z in (0.0, -0.0, 0.5, 1e-8, -0.25):     # a hair either side of the antimeridian half-plane
+            vecs.append((-1.0, y, z))
+            vecs.append(unit((-1.0, y, z)))
+            vecs.append((-math.sqrt(1 - z * z), y, z))
+    mids = []
+    for la in (0.0, 10.0, 45.0, -60.0, 89.0, -89.999, 1e-9):
+        for d in (1.0, 0.5, 1e-3, 1e-9, 10.0, 90.0, 179.0, 0.0):
+            a, b = sph(180 - d, la), sph(-(180 - d), la)            # symmetric about the antimeridian
+            mids.append(unit(tuple((p + q) / 2 for p, q in zip(a, b))))
+            a, b = sph(180 - d, la), sph(-(180 - d), -la / 2)
+            mids.append(unit(tuple((p + q) / 2 for p, q in zip(a, b))))
+            a, b = sph(d, 90 - abs(la) / 90), sph(d + 180, 90 - abs(la) / 90)   # symmetric about the pole
+            mids.append(unit(tuple((p + q) / 2 for p, q in zip(a, b))))
+            a, b, c = sph(180 - d, la), sph(-(180 - d), la), sph(180.0, la + 1)  # circumcentre formula, as coded
+            cc = tuple(a[(i + 1) % 3] * b[(i + 2) % 3] - a[(i + 2) % 3] * b[(i + 1) % 3]
+                       + b[(i + 1) % 3] * c[(i + 2) % 3] - b[(i + 2) % 3] * c[(i + 1) % 3]
+                       + c[(i + 1) % 3] * a[(i + 2) % 3] - c[(i + 2) % 3] * a[(i + 1) % 3] for i in range(3))
+            if any(cc):
+                mids.append(unit(cc))
+    vecs += mids
+    for _ in range(run.scale(800, 30000)):
+        r = rng.random()
+        if r < 0.4:
+            lo, la = rng.uniform(-180, 180), rng.uniform(-90, 90)
+        elif r < 0.7:
+            lo, la = rng.choice([180.0, -180.0]) + rng.choice([0.0, 1e-13, -1e-13, 1e-9, -1e-9, rng.uniform(-1, 1)]), rng.uniform(-90, 90)
+        else:
+            lo, la = rng.uniform(-180, 180), rng.choice([90.0, -90.0]) - rng.choice([0.0, 1e-13, 1e-9, 1e-6]) * rng.choice([1, -1])
+            la = max(-90.0, min(90.0, la))
+        v = sph(lo, la)
+        if rng.random() < 0.3:                       # snap noise-sized components to a signed zero
+            v = tuple((math.copysign(0.0, t) if abs(t) < 1e-15 else t) for t in v)
+        vecs.append(v)
+    flines = []
+    for v in dict.fromkeys(vecs):
+        if any(t != t for t in v):
+            continue
+        kinds = ['f'] + (['i'] if all(float(t).is_integer() and (t != 0 or math.copysign(1, t) > 0) for t in v) else [])
+        kinds.append(rng.choice('nl'))           # (an int cannot carry the sign of a zero)
+        for k in kinds:
+            flines.append(f'co.fromxyz {k} ' + ' '.join(fbits(t) for t in v))
+    for z in (1.0000000000000002, -1.0000000000000002, 2.0):     # off the sphere: asin raises
+        flines.append(f'co.fromxyz f {fbits(0.0)} {fbits(0.0)} {fbits(z)}')
+
+    def tag_vec(ln, a):
+        x, y, z = (unfbits(t) for t in ln.split()[2:5])
+        t = ['vec-kind:' + ln.split()[1]]
+        if y == 0 and x < 0:
+            t.append('antimeridian:y=' + ('-0' if math.copysign(1, y) < 0 else '+0'))
+        elif abs(y) < 1e-12 and x < 0:
+            t.append('antimeridian:near')
+        if x == 0 and y == 0:
+            t.append('axis:pole' if z else 'zero-vector')
+        if a.endswith('-180 0') or a.startswith('-180 '):
+            t.append('lon=-180')
+        return t
+    run.run_cases('fromxyz-vectors', flines, impl, spec, compare=xyzrt_compare(1e-12, 1e-9),
+                  spec_compare=fromxyz_spec_compare, tag=tag_vec)
+
+    # ---- coordinates returned by public functions, inputs on / straddling the antimeridian and the poles ----
+    out = []
+    centres = [(180.0, 0.0), (-180.0, 45.0), (179.5, -60.0), (-179.75, 10.0), (179.999999, 0.5), (180.0, 89.0),
+               (0.0, 89.5), (90.0, -89.5), (0.0, 0.0), (-179.0, 84.0)]
+    kinds = ['poly', 'polyhole', 'tri', 'cap', 'box', 'circle', 'ellipse', 'ring', 'wedge', 'line2', 'line3', 'point',
+             'mpoint', 'mline', 'mpoly', 'coll']
+    for (lo, la) in centres:
+        for k in kinds:
+            for d in ((1.0, 0.25) if run.quick else (1.0, 0.25, 0.001, 3.0)):
+                if abs(la) + 2 * d >= 90 and k != 'cap':
+                    d = (90 - abs(la)) / 4
+                out.append(f'np.out {k} {rat(lo)} {rat(la)} {rat(d)}')
+    for _ in range(run.scale(60, 3000)):
+        lo = rng.choice([180.0, -180.0, 179.0, -179.0]) + rng.choice([0, rng.uniform(-1, 1)])
+        la = rng.uniform(-80, 80)
+        out.append(f'np.out {rng.choice(kinds)} {rat(lo)} {rat(la)} {rat(rng.choice([1.0, 0.5, 0.125]))}')
+    for (lo, la) in centres + [(179.9, 0.0), (-179.9, 30.0), (10.0, 89.9), (10.0, -89.9)]:
+        for brg in (0.0, 90.0, 270.0, 180.0, 45.0, 359.999):
+            for dist in (1.0, 11132.0, 111320.0, 2.5e6, 2.0015e7):
+                out.append(f'np.out dest {rat(lo)} {rat(la)} {rat(brg)} {rat(dist)}')
+        for deg in (0.0, 90.0, 180.0, -45.0, 360.0):
+            out.append(f'np.out rot {rat(lo)} {rat(la)} {rat(lo + 0.25)} {rat(la / 2)} {rat(deg)}')
+    for lo in (180.0, -180.0, 179.999999, -179.999999, 540.0, 0.0, -0.0, 179.99999999999997, 190.0):
+        for la in (0.0, 45.5, -89.0, 90.0, -90.0, 95.0, 1e-7):
+            out.append(f'np.out parse {rat(lo)} {rat(la)}')
+    out = list(dict.fromkeys(out))
+
+    def out_ok(a, s):
+        p = a.split()
+        return len(p) == 2 and p[0] == 'ok' and int(p[1]) > 0
+    run.run_cases('np-output-coordinates', out, impl, spec, model=False, spec_compare=out_ok,
+                  tag=lambda ln, a: ['out:' + ln.split()[1] + (':ok' if a.startswith('ok') else ':FAIL')])
+
     return run.finish(
         rule='Coordinate(lon, lat) for every pair of special values (+-0.0, subnormals, one ulp either side of '
              '+-90..+-720, multiples of 90/180/360 up to +-1e5) and seeded random finite floats in +-1e5, as '
@@ -481,8 +807,15 @@ def check(run):
              'of pole-crossing inputs whose longitude is off the 2^-45 grid (separate stream). ==/hash over all '
              'ordered pairs of a small world of coordinates differing in spelling, z and m; to_float/to_str field '
              'lists for every z/m incl. 0.0; xyz and _from_xyz against the Float instance of the model and against '
-             'direct trigonometry of the raw input. A case is one protocol line; non-trivial = constructor did not '
-             'raise; distinct by line.',
+             'direct trigonometry of the raw input. Coordinates that do not come from the plain constructor: '
+             '_from_xyz on lattice / axis / signed-zero / antimeridian-half-plane / pole vectors, midpoints and '
+             'circumcentres of points symmetric about the antimeridian and the poles (float, int, numpy float64 and '
+             'longdouble components) against the Float model, and every Coordinate reachable from the results of public '
+             'functions (centroids, bounding coords/edges, circumscribing circles/rectangles, hulls, polygon forms, copies, '
+             'WKT/GeoJSON/shapely/DMS/QDMS/MGRS/projection readers, destination and rotation results) for 16 shape kinds '
+             'on / straddling the antimeridian and the poles, each tested for stored range, being a constructor fixed '
+             'point, ==/hash agreement with the constructor-built equal and a non-stale cached unit vector (np- stream). '
+             'A case is one protocol line; non-trivial = constructor did not raise; distinct by line.',
         assumptions=['for |x| <= 1e5 the float reflections / +-360 wraps are exact, so the float program is the '
                      'rational program (checked bit-exactly by the norm-exact stream; the pole flip lon+-180 of a '
                      'longitude off the 2^-45 grid rounds once: <= 1 ulp of 180)',
